@@ -592,8 +592,18 @@ func splitLocalTxns(j []simdb.JEntry) []*localTxn {
 				t.entries = append(t.entries, e)
 				t.last = i
 				if e.Class == "insert-undo" && e.Err == "" {
-					ee := e
-					t.undoIns = &ee
+					// (log_status 1 = the "global finished" marker a rollback leaves
+					// that found no undo log: phase two, not a branch's phase one)
+					marker := false
+					if len(e.Args) > 4 {
+						if st, ok := argInt(e.Args[4]); ok && st == 1 {
+							marker = true
+						}
+					}
+					if !marker {
+						ee := e
+						t.undoIns = &ee
+					}
 				}
 			} else if len(e.Writes) > 0 || e.Class == "insert" || e.Class == "update" || e.Class == "delete" {
 				// auto-commit statement
